@@ -228,6 +228,120 @@ fn glob_sweep(maxlen: usize) -> Value {
     json!({"patterns": patterns, "dont_care_patterns": dc, "evaluations": evals, "matching_pairs": matches, "texts": texts.len(), "devs": devs})
 }
 
+/// The same comparison through the commands: every text is a key; for every pattern (all of length <= 3 over the 9-symbol
+/// alphabet and the token-level ones, don't-cares left out) KEYS pattern and SCAN 0 MATCH pattern COUNT 1000 must return
+/// exactly the keys the reference matches (shortcuts in front of the matcher - literal patterns looked up as names,
+/// prefix rejects - live in the commands, not in the matcher).
+fn glob_through_keys() -> Value {
+    use super::c05::Harness;
+    use crate::resp::{self, R};
+    let alphabet: &[u8] = b"ab*?[]^-\\";
+    let mut patterns: Vec<Vec<u8>> = Vec::new();
+    for l in 1..=3usize {
+        let mut idx = vec![0usize; l];
+        loop {
+            let pat: Vec<u8> = idx.iter().map(|i| alphabet[*i]).collect();
+            if !glob_is_dc(&pat) {
+                patterns.push(pat);
+            }
+            let mut k = 0;
+            while k < l {
+                idx[k] += 1;
+                if idx[k] < alphabet.len() {
+                    break;
+                }
+                idx[k] = 0;
+                k += 1;
+            }
+            if k == l {
+                break;
+            }
+        }
+    }
+    for pat in crate::model::glob::token_patterns(2) {
+        if !glob_is_dc(&pat) {
+            patterns.push(pat);
+        }
+    }
+    patterns.sort();
+    patterns.dedup();
+    let mut texts: Vec<Vec<u8>> = Vec::new();
+    let texts_alpha: &[u8] = b"ab-]";
+    for l in 1..=3usize {
+        let mut idx = vec![0usize; l];
+        loop {
+            texts.push(idx.iter().map(|i| texts_alpha[*i]).collect());
+            let mut k = 0;
+            while k < l {
+                idx[k] += 1;
+                if idx[k] < texts_alpha.len() {
+                    break;
+                }
+                idx[k] = 0;
+                k += 1;
+            }
+            if k == l {
+                break;
+            }
+        }
+    }
+    texts.extend(crate::model::glob::token_texts());
+    for t in ["*", "a*", "?b", "[a]", "a\\", "\\a", "a.b", "^a"] {
+        texts.push(t.as_bytes().to_vec());
+    }
+    texts.sort();
+    texts.dedup();
+    let mut devs: Vec<Value> = Vec::new();
+    let mut errors: Vec<String> = Vec::new();
+    let mut evals = 0u64;
+    let mut h = Harness::new(crate::srv::SrvOpts::default());
+    let mut run = || -> Result<(), String> {
+        h.ensure()?;
+        h.aux_call(&["FLUSHALL"])?;
+        for t in texts.iter() {
+            h.aux_call(&[b"SET".to_vec(), t.clone(), b"v".to_vec()])?;
+        }
+        for p in patterns.iter() {
+            let want: std::collections::BTreeSet<Vec<u8>> = texts.iter().filter(|t| glob_match(p, t)).cloned().collect();
+            let as_set = |r: &R| -> Option<std::collections::BTreeSet<Vec<u8>>> {
+                match r {
+                    R::Arr(v) => Some(v.iter().filter_map(|x| if let R::Bulk(b) = x { Some(b.clone()) } else { None }).collect()),
+                    R::NilArr => Some(Default::default()),
+                    _ => None,
+                }
+            };
+            let keys = h.aux_call(&[b"KEYS".to_vec(), p.clone()])?;
+            let scan = h.aux_call(&[b"SCAN".to_vec(), b"0".to_vec(), b"MATCH".to_vec(), p.clone(), b"COUNT".to_vec(), b"1000".to_vec()])?;
+            let scan_set = match &scan {
+                R::Arr(v) if v.len() == 2 && (v[0] == R::Bulk(b"0".to_vec()) || v[0] == R::Int(0)) => as_set(&v[1]),
+                _ => None,
+            };
+            for (through, got) in [("KEYS", as_set(&keys)), ("SCAN MATCH", scan_set)] {
+                evals += texts.len() as u64;
+                match got {
+                    Some(got) => {
+                        for t in want.symmetric_difference(&got) {
+                            if devs.len() < 3000 {
+                                devs.push(json!({"pattern": String::from_utf8_lossy(p), "text": String::from_utf8_lossy(t), "expected": want.contains(t), "actual": got.contains(t), "through": through}));
+                            }
+                        }
+                    }
+                    None => {
+                        if devs.len() < 3000 {
+                            devs.push(json!({"pattern": String::from_utf8_lossy(p), "text": "(reply)", "expected": true, "actual": false, "through": through, "reply": resp::show(if through == "KEYS" { &keys } else { &scan })}));
+                        }
+                    }
+                }
+            }
+        }
+        Ok(())
+    };
+    if let Err(e) = run() {
+        errors.push(e);
+    }
+    json!({"through_keys": {"patterns": patterns.len(), "texts": texts.len(), "evaluations": evals, "devs": devs, "errors": errors}})
+}
+
 /// class of a glob deviation: which pattern feature is involved
 fn glob_dev_class(pat: &str, expected: bool) -> String {
     let mut feats = Vec::new();
@@ -257,6 +371,9 @@ pub fn handle_factory() -> impl FnMut(&str, &Value, &mut WorkerIo) -> (Value, bo
         if let Some(v) = super::bytesfam::worker(task, io) {
             return (v, false);
         }
+        if task.get("glob_keys").is_some() {
+            return (glob_through_keys(), false);
+        }
         if let Some(l) = task.get("glob") {
             let _ = tier;
             return (glob_sweep(l.as_u64().unwrap_or(3) as usize), false);
@@ -282,7 +399,23 @@ pub fn parent(tier: &str) -> i32 {
     let all = e1common::run_specs(&pool, tier, &specs, &mut report);
     // glob E4
     let gl = if tier == "thorough" { 5 } else { 4 };
-    let out = pool.map(vec![json!({"glob": gl})], 0);
+    let out = pool.map(vec![json!({"glob": gl}), json!({"glob_keys": true})], 0);
+    let mut through = json!({});
+    match &out[1] {
+        Outcome::Done(v) => {
+            let t = &v["through_keys"];
+            for e in t["errors"].as_array().cloned().unwrap_or_default() {
+                report.machinery_errors.push(format!("glob through KEYS/SCAN: {}", e));
+            }
+            for d in t["devs"].as_array().cloned().unwrap_or_default() {
+                let sig = format!("{}|through-{}", glob_dev_class(d["pattern"].as_str().unwrap_or(""), d["expected"].as_bool().unwrap_or(false)), d["through"].as_str().unwrap_or("").replace(' ', "-"));
+                report.deviations.push(Deviation { property: "C01".into(), sig, replay: json!({"kind": "glob-keys", "case": d}) });
+            }
+            println!("  c01-glob-through-keys: patterns={} keys={} evaluations={} deviations={}", t["patterns"], t["texts"], t["evaluations"], t["devs"].as_array().map(|a| a.len()).unwrap_or(0));
+            through = json!({"patterns": t["patterns"], "keys": t["texts"], "evaluations": t["evaluations"], "commands": ["KEYS pattern", "SCAN 0 MATCH pattern COUNT 1000"]});
+        }
+        Outcome::Died { status, case } => report.machinery_errors.push(format!("glob-through-keys worker died: {} {:?}", status, case)),
+    }
     let mut glob_cov = json!({});
     match &out[0] {
         Outcome::Done(v) => {
@@ -295,7 +428,7 @@ pub fn parent(tier: &str) -> i32 {
         Outcome::Died { status, case } => report.machinery_errors.push(format!("glob sweep worker died: {} {:?}", status, case)),
     }
     let bytes_cov = super::bytesfam::parent(&pool, &mut report, "C01", &["string", "keyname"]);
-    e1common::merge_coverage(&mut report, &all, json!({"glob_matcher_vs_reference": glob_cov, "byte_transparency": bytes_cov["byte_transparency"]}));
+    e1common::merge_coverage(&mut report, &all, json!({"glob_matcher_vs_reference": glob_cov, "glob_through_KEYS_and_SCAN": through, "byte_transparency": bytes_cov["byte_transparency"]}));
     report.assumptions = vec![
         "reference semantics as written in /verif/SEMANTICS.md (Redis 7.x), replies compared in normal form (any error = any error, null array = empty array)".into(),
         "the empty key is outside the alphabet (ferrous rejects it on purpose)".into(),
